@@ -1,10 +1,17 @@
 (* poolCount's closed form equals an independent count of the usable addresses
    of a CIDR (C11: "assigned + available = number of usable addresses"). *)
 From Coq Require Import List NArith ZArith Bool Lia ZifyN ZifyBool ZifyNat.
-From Verif Require Import Model.Net Model.Alloc Proofs.NetP Proofs.AllocP Proofs.AllocCountP.
+From Verif Require Import Model.Net Model.Alloc Proofs.NetP Proofs.AllocP Proofs.AllocPolicyP Proofs.AllocCountP.
 Import ListNotations.
 Local Open Scope N_scope.
 Ltac Zify.zify_post_hook ::= Z.div_mod_to_equations.
+Local Arguments N.sub : simpl never.
+Local Arguments N.mul : simpl never.
+Local Arguments N.pow : simpl never.
+Local Arguments Z.mul : simpl never.
+Local Arguments Z.pow : simpl never.
+Local Arguments Z.sub : simpl never.
+Local Arguments Z.of_N : simpl never.
 
 (* the addresses of a block, enumerated *)
 Fixpoint range_ips (f : fam) (first : N) (n : nat) : list ip :=
@@ -68,16 +75,20 @@ Proof.
 Qed.
 
 (* a block of blk addresses (blk a proper divisor of 256, at least 2) starting at a multiple of blk *)
-Lemma buggy_small_block blk d t : blk * d = 256 -> 2 <= blk ->
+Lemma buggy_small_block blk d h t : blk * d = 256 -> blk = 2 * h -> 0 < h -> 2 <= d ->
   let first := t * blk in
   buggy_upto (first + blk) =
   buggy_upto first + bN (buggy (V4 first)) + bN (buggy (V4 (first + blk - 1))).
 Proof.
-  intros Hbd Hblk first.
-  assert (Hd : 0 < d) by nia.
+  intros Hbd Hh Hh0 Hd2 first.
+  assert (Hblk : 2 <= blk) by lia.
+  assert (Hd : 0 < d) by lia.
+  assert (Hodd : forall z, z * blk <> 255).
+  { intros z Hz. rewrite Hh in Hz. assert (2 * (z * h) = 255) by nia. lia. }
   pose proof (N.div_mod t d ltac:(lia)) as Ht. pose proof (N.mod_lt t d ltac:(lia)) as Htl.
   set (q := t / d) in *. set (t' := t mod d) in *.
-  assert (Hf : first = 256 * q + t' * blk) by (unfold first; nia).
+  assert (Hf : first = 256 * q + t' * blk).
+  { unfold first. rewrite Ht at 1. rewrite N.mul_add_distr_r. f_equal. rewrite <- Hbd. ring. }
   assert (Hr : t' * blk + blk <= 256) by nia.
   assert (Hq0 : first / 256 = q) by (symmetry; apply (N.div_unique first 256 q (t' * blk)); lia).
   assert (Hr0 : first mod 256 = t' * blk) by (symmetry; apply (N.mod_unique first 256 q (t' * blk)); lia).
@@ -88,15 +99,154 @@ Proof.
     assert (H2 : (first + blk) mod 256 = 0) by (symmetry; apply (N.mod_unique (first + blk) 256 (q + 1) 0); lia).
     assert (H3 : (first + blk - 1) mod 256 = 255) by (symmetry; apply (N.mod_unique (first + blk - 1) 256 q 255); lia).
     rewrite H1, H2, H3, Hq0, Hr0.
-    assert (t' * blk <> 0) by nia. assert (t' * blk <> 255) by nia.
-    destruct (N.eqb_spec (t' * blk) 0), (N.eqb_spec (t' * blk) 255); cbn; lia.
+    assert (t' * blk <> 0) by nia. pose proof (Hodd t').
+    destruct (N.eqb_spec (t' * blk) 0), (N.eqb_spec (t' * blk) 255); cbn [orb N.eqb Pos.eqb]; lia.
   - assert (H1 : (first + blk) / 256 = q) by (symmetry; apply (N.div_unique (first + blk) 256 q (t' * blk + blk)); lia).
     assert (H2 : (first + blk) mod 256 = t' * blk + blk) by (symmetry; apply (N.mod_unique (first + blk) 256 q (t' * blk + blk)); lia).
     assert (H3 : (first + blk - 1) mod 256 = t' * blk + blk - 1) by (symmetry; apply (N.mod_unique (first + blk - 1) 256 q (t' * blk + blk - 1)); lia).
     rewrite H1, H2, H3, Hq0, Hr0.
-    assert (t' * blk <> 255) by nia.
+    pose proof (Hodd t'). pose proof (Hodd (t' + 1)) as Hodd1.
     destruct (N.eqb_spec (t' * blk + blk) 0); [lia|].
     destruct (N.eqb_spec (t' * blk + blk - 1) 0); [lia|].
     destruct (N.eqb_spec (t' * blk + blk - 1) 255); [lia|].
-    destruct (N.eqb_spec (t' * blk) 0), (N.eqb_spec (t' * blk) 255); cbn; lia.
+    destruct (N.eqb_spec (t' * blk) 0), (N.eqb_spec (t' * blk) 255); cbn [orb N.eqb Pos.eqb]; lia.
+Qed.
+
+(* ---------- the closed form of poolCount counts the usable addresses ---------- *)
+Lemma usable_count_nonavoid l : length (filter (usable false) l) = length l.
+Proof. pose proof (filter_usable_length false l) as H. cbv beta iota in H. lia. Qed.
+
+Lemma usable_count_v6 first n : length (filter (usable true) (range_ips F6 first n)) = n.
+Proof.
+  pose proof (filter_usable_length true (range_ips F6 first n)) as H.
+  rewrite filter_buggy_v6, range_ips_length in H. cbv beta iota in H. cbn [length] in H. lia.
+Qed.
+
+Lemma usable_count_v4 first n :
+  Z.of_nat (length (filter (usable true) (range_ips F4 first n))) =
+  (Z.of_nat n - (Z.of_N (buggy_upto (first + N.of_nat n)) - Z.of_N (buggy_upto first)))%Z.
+Proof.
+  pose proof (filter_usable_length true (range_ips F4 first n)) as H. rewrite range_ips_length in H.
+  cbv beta iota in H. pose proof (count_buggy_range n first). lia.
+Qed.
+
+Lemma block_pow c : block c = 2 ^ (width (pfam c) - plen c).
+Proof. reflexivity. Qed.
+
+Lemma Zpow_N (k : N) : Z.of_N (2 ^ k) = (2 ^ Z.of_N k)%Z.
+Proof. rewrite N2Z.inj_pow. reflexivity. Qed.
+
+Theorem poolcount_formula avoid c n :
+  plen c <= width (pfam c) -> cidr_count avoid c = Some n ->
+  n = Z.of_nat (length (filter (usable avoid) (cidr_addrs c))).
+Proof.
+  intros Hw. unfold cidr_count. destruct (62 <=? width (pfam c) - plen c) eqn:Hbig; [discriminate|].
+  intros H. injection H as Hn. rewrite <- Hn. clear Hn n.
+  unfold cidr_addrs. set (hb := width (pfam c) - plen c) in *.
+  assert (Hblk : block c = 2 ^ hb) by reflexivity.
+  assert (Hlen : Z.of_nat (N.to_nat (block c)) = (2 ^ Z.of_N hb)%Z) by (rewrite N_nat_Z, Hblk; apply Zpow_N).
+  destruct avoid; cbn [andb].
+  2:{ rewrite usable_count_nonavoid, range_ips_length. symmetry. exact Hlen. }
+  destruct (pfam c) eqn:Hf; cbn [fam_eqb].
+  2:{ rewrite usable_count_v6. symmetry. exact Hlen. }
+  (* IPv4, avoiding .0 and .255 *)
+  change (width F4) with 32 in *.
+  rewrite usable_count_v4, Hlen, N2Nat.id.
+  unfold plast, pfirst. rewrite Hblk.
+  set (t := pbase c / 2 ^ hb).
+  destruct (plen c <=? 24) eqn:H24.
+  - apply N.leb_le in H24.
+    assert (E : 2 ^ hb = 256 * 2 ^ (24 - plen c)).
+    { unfold hb. replace (32 - plen c) with (8 + (24 - plen c)) by lia. rewrite N.pow_add_r. reflexivity. }
+    rewrite E. rewrite buggy_big_block by (apply pow2_pos).
+    rewrite N2Z.inj_add, N2Z.inj_mul, Zpow_N. change (Z.of_N 2) with 2%Z. lia.
+  - apply N.leb_gt in H24.
+    assert (Hcases : plen c = 25 \/ plen c = 26 \/ plen c = 27 \/ plen c = 28 \/ plen c = 29 \/
+                     plen c = 30 \/ plen c = 31 \/ plen c = 32) by lia.
+    unfold b2z.
+    assert (Hsmall : forall blk d h, 2 ^ hb = blk -> blk * d = 256 -> blk = 2 * h -> 0 < h -> 2 <= d ->
+      (2 ^ Z.of_N hb - (Z.of_N (buggy_upto (t * blk + blk)) - Z.of_N (buggy_upto (t * blk))) =
+       2 ^ Z.of_N hb - (if buggy (mk_ip F4 (t * blk)) then 1 else 0) -
+       (if (t * blk =? t * blk + blk - 1)%N then 0 else if buggy (mk_ip F4 (t * blk + blk - 1)) then 1 else 0))%Z).
+    { intros blk d h Hb Hbd Hh Hh0 Hd2.
+      pose proof (buggy_small_block blk d h t Hbd Hh Hh0 Hd2) as HS. cbv zeta in HS. rewrite HS.
+      destruct (N.eqb_spec (t * blk) (t * blk + blk - 1)) as [Eq|Ne]; [lia|].
+      cbn [mk_ip]. unfold bN. destruct (buggy (V4 (t * blk))), (buggy (V4 (t * blk + blk - 1))); lia. }
+    Ltac small_case Hsmall :=
+      match goal with |- context [(2 ^ (32 - ?o))%N] =>
+        let b := eval vm_compute in (2 ^ (32 - o))%N in
+        let d := eval vm_compute in (256 / b)%N in
+        let h := eval vm_compute in (b / 2)%N in
+        change (2 ^ (32 - o))%N with b in *; symmetry; apply (Hsmall b d h); [reflexivity|reflexivity|reflexivity|lia|lia]
+      end.
+    destruct Hcases as [E|[E|[E|[E|[E|[E|[E|E]]]]]]]; unfold hb in *; rewrite E in *;
+      [small_case Hsmall|small_case Hsmall|small_case Hsmall|small_case Hsmall|small_case Hsmall|small_case Hsmall|small_case Hsmall|].
+    (* /32: a single address *)
+    change (2 ^ (32 - 32)) with 1 in *. rewrite !N.mul_1_r.
+    replace (t + 1 - 1) with t by lia. rewrite N.eqb_refl.
+    rewrite buggy_upto_step. cbn [mk_ip]. unfold bN. change (2 ^ Z.of_N (32 - 32))%Z with 1%Z.
+    destruct (buggy (V4 t)); lia.
+Qed.
+
+(* per-family capacity = the number of usable addresses of the pool's CIDRs of
+   that family, counted, saturating at MaxInt64 *)
+Definition usable_addrs (p : pool) (f : fam) : list (list ip) :=
+  map (fun c => filter (usable (p_avoid p)) (cidr_addrs c))
+      (filter (fun c => fam_eqb (pfam c) f) (p_cidrs p)).
+
+(* ---------- assigned never exceeds the number of usable addresses ---------- *)
+Lemma In_cidr_addrs c x :
+  contains c x = true -> In x (cidr_addrs c).
+Proof.
+  intros H. apply contains_in_range in H. destruct H as [Hf H]. unfold in_range, plast in H.
+  apply andb_true_iff in H. destruct H as [H1 H2]. apply N.leb_le in H1. apply N.leb_le in H2.
+  unfold cidr_addrs. apply In_range_ips. exists (ip_val x). split.
+  - rewrite Hf. destruct x; reflexivity.
+  - rewrite N2Nat.id. pose proof (block_pos c). lia.
+Qed.
+
+Definition usable_concat (p : pool) (f : fam) : list ip :=
+  flat_map (fun c => if fam_eqb (pfam c) f then filter (usable (p_avoid p)) (cidr_addrs c) else []) (p_cidrs p).
+
+Lemma in_pool_usable_concat p x : in_pool p x = true -> In x (usable_concat p (ip_fam x)).
+Proof.
+  unfold in_pool. rewrite andb_true_iff, existsb_exists. intros [Hb [c [Hc Hx]]].
+  unfold usable_concat. apply in_flat_map. exists c. split; [exact Hc|].
+  assert (Hf : pfam c = ip_fam x) by (apply contains_in_range in Hx; tauto).
+  rewrite Hf, fam_eqb_refl. apply filter_In. split; [apply In_cidr_addrs; exact Hx|exact Hb].
+Qed.
+
+Lemma usable_concat_length p f m :
+  (forall c, In c (p_cidrs p) -> plen c <= width (pfam c)) ->
+  exact_sum (p_avoid p) f (p_cidrs p) = Some m -> Z.of_nat (length (usable_concat p f)) = m.
+Proof.
+  unfold usable_concat. intros Hw. revert m. induction (p_cidrs p) as [|c l IH]; intros m; cbn [exact_sum flat_map].
+  - intros [= <-]. reflexivity.
+  - assert (Hw' : forall c', In c' l -> plen c' <= width (pfam c')) by (intros; apply Hw; right; assumption).
+    rewrite app_length, Nat2Z.inj_add. destruct (fam_eqb (pfam c) f).
+    + destruct (cidr_count (p_avoid p) c) as [n|] eqn:E; [|discriminate].
+      destruct (exact_sum (p_avoid p) f l) as [m'|]; [|discriminate]. intros [= <-].
+      rewrite (IH Hw' m' eq_refl). rewrite (poolcount_formula _ _ _ (Hw c (or_introl eq_refl)) E). reflexivity.
+    + cbn [length]. intros H. rewrite (IH Hw' m H). lia.
+Qed.
+
+(* the distinct addresses of family f recorded under pool name n are usable
+   addresses of that pool: their number is at most the exact capacity *)
+Theorem assigned_le_capacity a n p f m :
+  Inv a -> PoolCoh a -> NoDup (map p_name (by_name (s_pools a))) ->
+  find_pool (s_pools a) n = Some p -> wf_pool_lens p ->
+  exact_sum (p_avoid p) f (p_cidrs p) = Some m ->
+  (assigned a n f <= m)%Z.
+Proof.
+  intros [Hnd _] HC Hun Hfp Hw Hm. unfold assigned.
+  rewrite <- (usable_concat_length p f m Hw Hm). apply Nat2Z.inj_le.
+  apply NoDup_incl_length.
+  - apply NoDup_filter. apply ips_in_use_NoDup.
+  - intros x Hx. apply filter_In in Hx. destruct Hx as [Hin Hfam]. apply fam_eqb_eq in Hfam.
+    apply ips_in_use_spec in Hin. destruct Hin as [e [He [Hn Hxe]]].
+    destruct (HC e He) as [q [Hq Hqn]]. apply AllocPolicyP.pool_for_spec in Hq. destruct Hq as [Hqin Hall].
+    assert (q = p).
+    { apply AllocPolicyP.find_pool_spec in Hfp. destruct Hfp as [Hpin Hpn].
+      apply (AllocPolicyP.names_unique_eq (s_pools a)); auto. congruence. }
+    subst q. rewrite <- Hfam. apply in_pool_usable_concat. apply Hall. exact Hxe.
 Qed.
